@@ -553,11 +553,17 @@ func (w *c18World) runCaller(req *c18Req, sendRes func(ctx context.Context) erro
 
 	if req.API == 1 {
 		// SendWithReply: blocks until the first reply or the parent context ends
+		if expected == 0 && w.sc.TimeoutMs == 0 {
+			req.End = 1 // no reply will ever come and nothing else ends the wait
+		}
 		if req.End == 1 {
 			go func() {
 				waitListener(0)
 				if !req.Sync {
 					time.Sleep(time.Duration(req.Reads) * 300 * time.Microsecond)
+				}
+				if expected == 0 {
+					time.Sleep(5 * time.Millisecond)
 				}
 				w.rt.Stamp("c18.caller.cancel", req.opid)
 				pcancel()
